@@ -39,6 +39,8 @@ class Ctx:
 
     # ---- facts
     def facts(self, config="default"):
+        if config == "default" and getattr(self, "config_override", None):
+            config = self.config_override
         if config not in self._facts:
             p, rmeta, info = F.extract(config)
             fx = F.Facts(p)
